@@ -3,6 +3,7 @@ import EdpVerif.Lemmas.ReceiverRecv
 import EdpVerif.Lemmas.ReceiverBP
 import EdpVerif.Generated.Control
 import EdpVerif.Generated.MiscC19
+import EdpVerif.Generated.MiscC17
 import EdpVerif.Generated.MiscState
 /-!
 C19 — inbound routing is exact and the connection's receiver outlives bad input.
@@ -706,5 +707,67 @@ theorem C19_state_is_the_sources_state :
        "pending_rpcs:Arc<DashMap<String,oneshot::Sender<OwnedTerm>>>", "started:Arc<AtomicBool>",
        "listen_port:Option<u16>", "hidden:bool"]
     ∧ Edp.Gen.PROCESS_WIDE_STATE = [] := by decide
+
+end Edp.Props.C19
+
+namespace Edp.Props.C19
+open Edp Edp.Framing Edp.Receiver
+
+/-! ## the key of an outstanding call -/
+
+/-- the text under which an outstanding call is filed (`pending_rpcs.insert` in `rpc_call_raw_with_timeout`) and looked up
+(`pending_rpcs.remove` in the Send arm of `route_message`), regenerated from node.rs at both sites, is
+`"{}.{}.{}"` of the reply pid's id, serial AND creation — the three numbers of the model's `rpcKey` —, the same at both
+sites; and the model's key tells apart any two pids that differ in one of them.  A key that drops a field (a late reply
+to the node's previous incarnation would then complete a call of this one) changes the generated text. -/
+theorem C19_reply_key_is_the_sources_key :
+    Gen.RPC_KEY_FORMAT_CALL = ("{}.{}.{}", ["id", "serial", "creation"]) ∧
+    Gen.RPC_KEY_FORMAT_ROUTE = Gen.RPC_KEY_FORMAT_CALL ∧
+    ∀ p q : PidF, rpcKey p = rpcKey q ↔ (p.id = q.id ∧ p.serial = q.serial ∧ p.creation = q.creation) := by
+  refine ⟨by decide, by decide, ?_⟩
+  intro p q
+  simp [rpcKey]
+
+example : rpcKey ⟨[110], 4, 0, 3, none⟩ ≠ rpcKey ⟨[110], 4, 0, 2, none⟩ := by decide
+
+/-- a SEND for a pid that differs from the reply pid of an outstanding call in its id, its serial or its creation — a
+near miss: a late reply to an earlier call or to an earlier incarnation of the node — never completes that call,
+whatever else it does (it may be for a live process or for another outstanding call): the call stays outstanding and
+is handed nothing -/
+theorem C19_near_miss_leaves_the_call_outstanding (st : NodeSt) (cookie body : Term) (p q : PidF)
+    (hp : rpcKey p ∈ st.pending) (hne : q.id ≠ p.id ∨ q.serial ≠ p.serial ∨ q.creation ≠ p.creation) :
+    let st' := routeCtl T st (.tuple [.int 2, cookie, .pid q]) (some body)
+    rpcKey p ∈ st'.pending ∧
+    st'.replies.filter (fun r => r.1 = rpcKey p) = st.replies.filter (fun r => r.1 = rpcKey p) := by
+  have hk : rpcKey q ≠ rpcKey p := by
+    intro h
+    have := (C19_reply_key_is_the_sources_key.2.2 q p).mp h
+    omega
+  intro st'
+  have hr : st' = route st (.known "Send" [("cookie", .term cookie), ("to_pid", .term (.pid q))]) (some body) := rfl
+  by_cases hl : isLive st q.key = true
+  · have : st' = sendTo st q.key (.regular body) := by
+      rw [hr]; simp [route, armOf, fld, Control.lookup, hl]
+    rw [this]
+    exact ⟨hp, rfl⟩
+  · have hl' : isLive st q.key = false := by simpa using hl
+    by_cases hq : rpcKey q ∈ st.pending
+    · have : st' = answer st (rpcKey q) body := by
+        rw [hr]; simp [route, armOf, fld, Control.lookup, hl', hq]
+      rw [this]
+      constructor
+      · simp only [answer, List.mem_filter]
+        exact ⟨hp, by simpa using fun h => hk h.symm⟩
+      · simp only [answer, List.filter_append]
+        have : List.filter (fun r => decide (r.1 = rpcKey p)) [(rpcKey q, body)] = [] := by
+          simp [hk]
+        rw [this, List.append_nil]
+    · have : st' = st := by
+        rw [hr]; simp [route, armOf, fld, Control.lookup, hl', hq]
+      rw [this]
+      exact ⟨hp, rfl⟩
+
+example : (∃ q p : PidF, rpcKey p ∈ [((4 : Nat), (0 : Nat), (3 : Nat))] ∧ q.creation ≠ p.creation) :=
+  ⟨⟨[110], 4, 0, 2, none⟩, ⟨[110], 4, 0, 3, none⟩, by decide, by decide⟩
 
 end Edp.Props.C19
